@@ -5,8 +5,8 @@ import LentilVerif.Gen.FieldDispatch
 `Wavefront.__init__` creates fields whose data is a **0-d** array. Everywhere except one corner a 0-d field behaves as a
 1×1 array at its offset (`array_extent` maps `len(shape) < 2` to `(1, 1)`, and `out[row, col] += data` broadcasts). The
 corner is `_merge` on a collection whose bounding box is the single origin pixel — i.e. every member is a one-element
-field at offset (0, 0): `_merge_shape` returns `()`, every slice is `Ellipsis`, and `out[...] += field.data` adds every
-0-d member but raises `ValueError` for a member whose data is a (1, 1) array (output shape `()` vs `(1, 1)`).
+field at offset (0, 0): every slice is `Ellipsis`; `_merge_shape` returns `()` when every member is 0-d (the result is
+then 0-d) and `(1, 1)` otherwise (/repo fix: it used to return `()` always, and a (1, 1) array member made NumPy raise).
 
 `ZFld` = a `Fld` plus the flag "data is 0-d". The existing `Fld`/`mergeL`/`reduce` are not changed; `mergeZ`/`reduceZ`
 refine them (`Lemmas/ReduceZ.lean`: they agree wherever `mergeL`/`reduce` answer). Mathlib-free. -/
@@ -18,23 +18,25 @@ structure ZFld (K : Type) where
   fld : Fld K
   zd : Bool
 
+def b2i (b : Bool) : Int := if b then 1 else 0
+
 /-- `Field.__mul__`, 0-d aware: the data of the product is 0-d exactly when both operands are 0-d (NumPy: `() * ()` is
 `()`, `() * (1, 1)` is `(1, 1)`, and a one-element operand is broadcast to the other's shape) -/
 def ZFld.mul [Mul K] (a b : ZFld K) : Option (ZFld K) :=
   (a.fld.mul b.fld).map fun p => { fld := p, zd := a.zd && b.zd }
 
-/-- `lentil.field._merge`, 0-d aware: `none` = NumPy raises `ValueError` -/
+/-- `lentil.field._merge`, 0-d aware. `_merge_shape` (generated, with `all0d` = "every member is 0-d") returns `()` only on
+the single-origin-pixel box of an all-0-d collection: then `out = np.zeros(())` and `out[...] += field.data` adds every
+member, and the result is 0-d. In every other case (also (1, 1) arrays, or a mix, at the origin) the result is an array and
+`mergeL` applies. -/
 def mergeZ [Add K] [Zero K] (fs : List (ZFld K)) : Option (ZFld K) :=
   let b := boundaryL (fs.map fun z => z.fld.extent)
-  match Gen.mergeShape b.rmin b.rmax b.cmin b.cmax with
+  match Gen.mergeShape b.rmin b.rmax b.cmin b.cmax (b2i (fs.all fun z => z.zd)) with
   | none =>
-    -- `out = np.zeros(())`, every slice `Ellipsis`: `out[...] += field.data` for each field
-    if fs.all (fun z => z.zd) then
-      let off := Gen.mergeOffset b.rmin b.rmax b.cmin b.cmax
-      some { fld := { arr := { s0 := 1, s1 := 1, get := fun _ _ => sumList fs fun z => z.fld.arr.get 0 0 },
-                      o0 := off.1, o1 := off.2 },
-             zd := true }
-    else none
+    let off := Gen.mergeOffset b.rmin b.rmax b.cmin b.cmax
+    some { fld := { arr := { s0 := 1, s1 := 1, get := fun _ _ => sumList fs fun z => z.fld.arr.get 0 0 },
+                    o0 := off.1, o1 := off.2 },
+           zd := true }
   | some _ => (mergeL (fs.map fun z => z.fld)).map fun p => { fld := p, zd := false }
 
 /-- a group of `_reduce` whose members carry the 0-d flag -/
@@ -72,8 +74,6 @@ def GroupZ.out [Add K] [Zero K] (g : GroupZ K) : Option (ZFld K) :=
 /-- `lentil.field.reduce`, 0-d aware -/
 def reduceZ [Add K] [Zero K] (zs : List (ZFld K)) : List (Option (ZFld K)) :=
   (disjointZ zs.length (zs.map GroupZ.single)).map GroupZ.out
-
-def b2i (b : Bool) : Int := if b then 1 else 0
 
 /-- public `lentil.field.overlap(fields)`: `len(fields) == 2` (generated `Gen.overlapIsPair`) → the extent test on
 `fields[0]`, `fields[1]`; otherwise `_reduce` and the generated test `Gen.overlapManyFalse` on the number of groups -/
